@@ -105,6 +105,14 @@ def cases(shard, nshards, seed, tier):
         for t in range(2 if tier == "quick" else 6):
             if mine():
                 yield {"family": "T4-format-alternate-conformers", "file": fn, "base_ops": [], "twin": {"kind": "T4", "altlocs": f"{seed}:{fn}:alt{t}"}}
+    # rigid motion of the file itself, with chains of nearly superposed copies (a-b and b-c closer than 0.5 A, a-c not)
+    for fn in [f for f in files if f.endswith(("1ATO.pdb", "1A1T_1_B.cif", "1E7K_1_C.cif", "1HMH_1_E.cif", "184D.cif"))]:
+        for t in range(2 if tier == "quick" else 10):
+            if mine():
+                rng = random.Random(f"{seed}:T1R:{fn}:{t}")
+                yield {"family": "T1-file-in-another-frame", "file": fn, "base_ops": [], "twin": {
+                    "kind": "T1R", "k": rng.randrange(1, 24), "trans": [rng.choice([0.0, 12.5, -40.0]) for _ in range(3)], "copies": rng.choice([2, 2, 3]),
+                    "step": rng.choice([0.4, 0.3, 0.45]), "occ": rng.choice([1.0, 0.5]), "fmt": rng.choice([".pdb", ".cif"]), "seed": f"{seed}:{fn}:{t}"}}
     # format twins with gap detection on: missing residues (author numbers jump while the mmCIF label index does not)
     for fn in [f for f in files if f.endswith(("1E7K_1_C.cif", "1ehz-assembly-1.cif", "1A1T_1_B.cif", "4qln.cif", "488d.pdb"))]:
         for t in range(2 if tier == "quick" else 8):
@@ -316,6 +324,57 @@ def run_case(case, rec):
                     return
                 last[r.chain] = k
         twin, keymap, chainmap = _relabel_twin(base, tw)
+    elif tw["kind"] == "T1R":
+        # a rigid motion of the FILE: the text of a table (with chains of nearly superposed copies, which the reader
+        # thins out) and the text of the same table in another frame - an axis permutation plus a decimal translation,
+        # exact on three-decimal coordinates - both read by the real reader
+        from vmon import emit
+        from vmon.oracles import geom
+
+        rows = emit.rows_from_structure(base)
+        used = sorted({r["chain"] for r in rows})
+        free = [c for c in "ZYXWVUTSRQzyxwvuts98765432" if c not in used]
+        ncopies = tw["copies"]
+        if not rows or len(free) < len(used) * ncopies or any(not (c or "").strip() or len(c) != 1 for c in used):
+            rec.skip("twin.interactions-equal", "no free one-character chain names for the copies")
+            return
+        rng = random.Random(tw["seed"])
+        keys = []
+        for r in rows:
+            k = (r["chain"], r["resseq"], r["icode"])
+            if k not in keys:
+                keys.append(k)
+        chosen = set(rng.sample(keys, max(1, len(keys) // 3)))
+        step = tw["step"]
+        copies = []
+        for c in range(1, ncopies + 1):
+            for r in rows:
+                if (r["chain"], r["resseq"], r["icode"]) in chosen:
+                    copies.append(dict(r, chain=free[used.index(r["chain"]) * ncopies + c - 1], x=round(r["x"] + c * step, 3)))
+        rows = rows + copies
+        for r in rows:
+            r["occ"] = tw["occ"]
+        for i, r in enumerate(rows, 1):
+            r["serial"] = i
+        R = geom.axis_permutations()[tw["k"]]
+        moved = []
+        for r in rows:
+            v = R @ np.array([r["x"], r["y"], r["z"]])
+            moved.append(dict(r, x=round(float(v[0]) + tw["trans"][0], 3), y=round(float(v[1]) + tw["trans"][1], 3), z=round(float(v[2]) + tw["trans"][2], 3)))
+        if not emit.fits_pdb(rows) or not emit.fits_pdb(moved):
+            rec.skip("twin.interactions-equal", "outside-PDB-limits")
+            return
+        em = emit.emit_pdb if tw["fmt"] == ".pdb" else emit.emit_cif
+        try:
+            base = emit.read_text(em(rows), tw["fmt"])
+        except Exception as e:
+            rec.undecided("twin.interactions-equal", f"reader raised {type(e).__name__} on the base text")
+            return
+        try:
+            twin = emit.read_text(em(moved), tw["fmt"])
+        except Exception as e:
+            rec.violation("twin.no-crash", {"twin": tw, "exception": repr(e)[:300]}, mechanism=f"crash:{type(e).__name__}")
+            return
     else:
         from vmon import emit
 
